@@ -30,6 +30,12 @@ from vf import explore, lattice
 from vf.cli import WorkerResult
 from vf.oracles import harm
 
+
+def _gt(a, b):
+    """a > b that is also True when a is NaN (a silent NaN must never pass a tolerance test)."""
+    return ~(np.asarray(a) <= np.asarray(b))
+
+
 LEVEL = "exploration"
 RULE = (
     "product of 64 atomic grids x basis functions r^l h_k(r) Y_lm (all l <= min degree/2, 3 radial "
@@ -141,11 +147,11 @@ def _grid_case(arg):
                     ang = np.asarray(g.integrate_angular_coordinates(f.copy()), dtype=float)
                     want = np.sqrt(4 * np.pi) * gfun(rp) * (1.0 if row == 0 else 0.0)
                     res.nontrivial()
-                    if ang.shape != rp.shape or np.max(np.abs(ang - want)) > 1e-10 * (np.max(np.abs(gfun(rp))) * 4 + 1e-300):
+                    if ang.shape != rp.shape or _gt(np.max(np.abs(ang - want)), 1e-10 * (np.max(np.abs(gfun(rp))) * 4 + 1e-300)):
                         res.violation(f"{tag}:angular-integral", f"integrate_angular_coordinates of g(r) Y_({l},{m}) differs from "
                                       f"sqrt(4pi) g_00(r_i) by {np.max(np.abs(ang - want)):.3e}", c2)
                     tot = float(g.integrate(f))
-                    if abs(np.sum(rp**2 * wr * ang) - tot) > 1e-10 * (np.sum(np.abs(g.weights * f)) + 1e-300):
+                    if _gt(abs(np.sum(rp**2 * wr * ang) - tot), 1e-10 * (np.sum(np.abs(g.weights * f)) + 1e-300)):
                         res.violation(f"{tag}:radial-sum-not-grid-integral", "sum_i r_i^2 w_i x angular integral differs from the grid integral", c2)
                     # (3) splines through g(r_i) delta
                     res.count()
@@ -156,7 +162,7 @@ def _grid_case(arg):
                     vals = np.array([s(rp) for s in spl])
                     wantv = np.zeros_like(vals)
                     wantv[row] = gfun(rp)
-                    if np.max(np.abs(vals - wantv)) > 1e-10 * (np.max(np.abs(gfun(rp))) + 1e-300) * 4:
+                    if _gt(np.max(np.abs(vals - wantv)), 1e-10 * (np.max(np.abs(gfun(rp))) + 1e-300) * 4):
                         k = int(np.argmax(np.max(np.abs(vals - wantv), axis=1)))
                         res.violation(f"{tag}:splines-not-through-components", f"radial component of g Y_({l},{m}): spline row {k} deviates by "
                                       f"{np.max(np.abs(vals - wantv)):.3e} at the shells", c2)
@@ -164,7 +170,7 @@ def _grid_case(arg):
                     res.count()
                     interp = g.interpolate(f.copy())
                     on = np.asarray(interp(g.points), dtype=float)
-                    if np.max(np.abs(on - f)) > 2e-10 * fscale * 4:
+                    if _gt(np.max(np.abs(on - f)), 2e-10 * fscale * 4):
                         res.violation(f"{tag}:interpolant-not-f-on-grid-points", f"g Y_({l},{m}): max deviation {np.max(np.abs(on - f)):.3e} "
                                       f"(scale {fscale:.3e})", c2)
                     # (5) arbitrary points: spline(r) Y(direction)
@@ -172,7 +178,7 @@ def _grid_case(arg):
                     at = np.asarray(interp(q), dtype=float)
                     wantq = spl[row](rq) * Yq[row]
                     sc = np.max(np.abs(wantq)) + fscale
-                    if np.max(np.abs(at - wantq)) > 1e-9 * sc:
+                    if _gt(np.max(np.abs(at - wantq)), 1e-9 * sc):
                         res.violation(f"{tag}:interpolant-not-splines-times-harmonics", f"g Y_({l},{m}): deviates by "
                                       f"{np.max(np.abs(at - wantq)):.3e} at arbitrary points", c2)
                     # (6) derivatives of that same interpolant
@@ -185,7 +191,7 @@ def _grid_case(arg):
                         qa = q[on_axis]  # (the interpolant has a cusp at the centre itself: no gradient there)
                         gra = np.asarray(interp(qa, deriv=1), dtype=float)
                         refa = fd6(fn, qa, 1e-4)
-                        if gra.shape != refa.shape or np.max(np.abs(gra - refa)) > 2e-6 * (np.max(np.abs(refa)) + fscale):
+                        if gra.shape != refa.shape or _gt(np.max(np.abs(gra - refa)), 2e-6 * (np.max(np.abs(refa)) + fscale)):
                             res.violation(f"{tag}:cartesian-derivative:on-polar-axis:zero-convention",
                                           f"g Y_({l},{m}): on the z axis through the centre the reported gradient "
                                           f"{gra[0].tolist()} is not the gradient of the interpolant {np.round(refa[0], 6).tolist()}", c2)
@@ -193,7 +199,7 @@ def _grid_case(arg):
                         gr = np.asarray(interp(qq, deriv=1), dtype=float)
                         ref = fd6(fn, qq, 1e-4)
                         dscale = np.max(np.abs(ref)) + fscale
-                        if gr.shape != ref.shape or np.max(np.abs(gr - ref)) > 2e-6 * dscale:
+                        if gr.shape != ref.shape or _gt(np.max(np.abs(gr - ref)), 2e-6 * dscale):
                             res.violation(f"{tag}:cartesian-derivative-not-derivative-of-interpolant",
                                           f"g Y_({l},{m}): reported gradient differs from central differences of the same interpolant by "
                                           f"{np.max(np.abs(gr - ref)) if gr.shape == ref.shape else 'shape'} (scale {dscale:.3e})", c2)
@@ -202,14 +208,14 @@ def _grid_case(arg):
                         rad2 = np.asarray(interp(qq, deriv=2, only_radial_deriv=True), dtype=float)
                         yy = harm.ylm_f64(lcap, uu)[row]
                         w1, w2 = spl[row](rr, 1) * yy, spl[row](rr, 2) * yy
-                        if np.max(np.abs(rad1 - w1)) > 1e-9 * (np.max(np.abs(w1)) + fscale) or np.max(np.abs(rad2 - w2)) > 1e-9 * (np.max(np.abs(w2)) + fscale):
+                        if _gt(np.max(np.abs(rad1 - w1)), 1e-9 * (np.max(np.abs(w1)) + fscale)) or _gt(np.max(np.abs(rad2 - w2)), 1e-9 * (np.max(np.abs(w2)) + fscale)):
                             res.violation(f"{tag}:radial-derivative", f"g Y_({l},{m}): radial-only derivatives differ from spline derivatives x harmonics", c2)
                         sph = np.asarray(interp(qq, deriv=1, deriv_spherical=True), dtype=float)
                         if sph.shape == (3 * len(qq),):
                             dr = sph[: len(qq)]
                             # radial part must be the directional derivative along r of the same interpolant
                             dirder = np.einsum("ij,ij->i", ref, uu)
-                            if np.max(np.abs(dr - dirder)) > 2e-6 * dscale:
+                            if _gt(np.max(np.abs(dr - dirder)), 2e-6 * dscale):
                                 res.violation(f"{tag}:spherical-derivative-radial-part", f"g Y_({l},{m}): d/dr differs from the radial "
                                               f"directional derivative", c2)
                             # angular parts: chain rule back to Cartesian must reproduce the gradient away from the z axis
@@ -220,7 +226,7 @@ def _grid_case(arg):
                             ex = np.stack([-np.sin(th), np.cos(th), 0 * th], axis=1)
                             ep = np.stack([np.cos(th) * np.cos(ph), np.sin(th) * np.cos(ph), -np.sin(ph)], axis=1)
                             cart = dr[:, None] * uu + (dth / (rr * np.sin(ph) + 1e-300))[:, None] * ex + (dph / rr)[:, None] * ep
-                            if np.any(ok) and np.max(np.abs(cart[ok] - ref[ok])) > 5e-6 * dscale:
+                            if np.any(ok) and _gt(np.max(np.abs(cart[ok] - ref[ok])), 5e-6 * dscale):
                                 res.violation(f"{tag}:spherical-derivative-angular-parts", f"g Y_({l},{m}): (d/dr, d/dtheta, d/dphi) do not "
                                               f"combine to the gradient of the interpolant", c2)
                         else:
@@ -234,8 +240,8 @@ def _grid_case(arg):
                     # shell (whose r^2 w - weighted sum is the grid integral by clause 2).  Comparing the
                     # summed integral directly would only measure how r^2 w of the outermost shells
                     # amplifies the rounding of the spline values.
-                    if np.max(np.abs(av - wanta)) > 1e-10 * (np.max(np.abs(gfun(rp))) + 1e-300) * 4 or \
-                            np.max(np.abs(4 * np.pi * av - ang)) > 1e-12 * (np.max(np.abs(ang)) + np.max(np.abs(gfun(rp))) + 1e-300):
+                    if _gt(np.max(np.abs(av - wanta)), 1e-10 * (np.max(np.abs(gfun(rp))) + 1e-300) * 4) or \
+                            _gt(np.max(np.abs(4 * np.pi * av - ang)), 1e-12 * (np.max(np.abs(ang)) + np.max(np.abs(gfun(rp))) + 1e-300)):
                         res.violation(f"{tag}:spherical-average", f"g Y_({l},{m}): spherical average differs from g_00/sqrt(4pi) or from "
                                       f"(1/4pi) x the angular integrals", c2)
     res.sample(dict(case, l_cap=lcap, basis_rows=nrows_basis))
@@ -267,7 +273,7 @@ def molecular(ctx):
             kw2 = {("only_radial_deriv" if k == "only_radial_derivs" else k): v for k, v in kw.items()}
             ref = sum(np.asarray(p(q, **kw2), dtype=float) for p in parts)
             ctx.nontrivial(("mol", repr(sorted(kw))), section="molecular")
-            if got.shape != ref.shape or np.max(np.abs(got - ref)) > 1e-12 * (1 + np.max(np.abs(ref))):
+            if got.shape != ref.shape or _gt(np.max(np.abs(got - ref)), 1e-12 * (1 + np.max(np.abs(ref)))):
                 ctx.violation("molecular:not-sum-of-atomic-interpolants", f"MolGrid.interpolate({kw}) differs from the sum of atomic "
                               f"interpolants of w_A f", {"route": "molecular", "kwargs": repr(kw)})
         ctx.count(section="molecular")
